@@ -4,4 +4,10 @@ import PgFdr.Generated.Enzymes
 import PgFdr.Generated.Methods
 import PgFdr.Generated.Markers
 import PgFdr.Generated.Headers
+import PgFdr.Props.C01
+import PgFdr.Props.C03
+import PgFdr.Props.C05
+import PgFdr.Props.C06
+import PgFdr.Props.C07
 import PgFdr.Props.C17
+import PgFdr.Props.C20
